@@ -443,6 +443,8 @@ def step_slices(fn):
             out['step1'] = [s]
         elif isinstance(s, ast.While) and 'step2' not in out and '_find_terminal_instruction(' in src and 'disassembly' not in src:
             out['step2'] = [s]
+        elif isinstance(s, ast.While) and 'step3' not in out and 'disassembly.build(True)' in src:
+            out['step3'] = [s]
         elif isinstance(s, ast.For) and '_get_blocks(ctls)' in ast.unparse(s.iter):
             if "_find_terminal_instruction(" in src:
                 out['step4'] = [s]
@@ -450,7 +452,7 @@ def step_slices(fn):
                 out['step6'] = [s]
             elif "ctl == 'b'" in src:
                 out['step7'] = [s]
-    missing = [k for k in ('init', 'step1', 'step2', 'step4', 'step6', 'step7') if k not in out]
+    missing = [k for k in ('init', 'step1', 'step2', 'step3', 'step4', 'step6', 'step7') if k not in out]
     if missing:
         raise LookupError('_generate_ctls_with_code_map: cannot locate %s' % missing)
     return node, out
@@ -469,7 +471,7 @@ def check_code_map_steps(rep, prop='C14'):
     all_loops = sorted([n for n in ast.walk(node) if isinstance(n, (ast.For, ast.While))], key=lambda n: (n.lineno, n.col_offset))
     rep.add('%s/%s/initial_dict_is_start_U_end_i' % (prop, q), 'proved', 'syntactic', 0, 'skoolkit.snactl._generate_ctls_with_code_map[step 1]')
 
-    for step in ('step1', 'step2', 'step4', 'step6', 'step7'):
+    for step in ('step1', 'step2', 'step3', 'step4', 'step6', 'step7'):
         stmts = slices[step]
         name = 'skoolkit.snactl._generate_ctls_with_code_map[%s]' % step.replace('step', 'step ')
 
@@ -511,6 +513,7 @@ def check_code_map_steps(rep, prop='C14'):
                     b1 = e.fresh('b_end', 0, 65536)
                     e.assume(and_(cmpop('>=', b0, p.gs), cmpop('<', b0, b1), cmpop('<=', b1, p.ge)))
                     reset_members(b0, b1)
+                    p.block_end = b1
                     e.assign(node_.target, (e.charval(b0), b0, b1))
                     try:
                         e.exec_block(node_.body)
@@ -568,6 +571,71 @@ def check_code_map_steps(rep, prop='C14'):
                         pass
                     raise PathEnd()
 
+            def entries_loop(e, node_):
+                """for entry in disassembly.entries: an arbitrary entry = a block [a0, a1) of the current dictionary"""
+                e.fresh_n += 1
+                if e.decide(SB(z3.Bool('iterate!%d' % e.fresh_n))):
+                    a0 = e.fresh('entry_address', 0, 65536)
+                    a1 = e.fresh('entry_end', 0, 65536)
+                    e.assume(and_(cmpop('>=', a0, p.gs), cmpop('<', a0, a1), cmpop('<=', a1, p.ge)))
+                    reset_members(a0, a1)
+                    from pyvc.engine import ObjModel
+                    entry = ObjModel(None, name='entry')
+                    e.fresh_n += 1
+                    last = SB(z3.Bool('entry_is_last!%d' % e.fresh_n))
+                    if e.decide(last):
+                        e.assume(cmpop('==', a1, p.ge))
+                        nxt = None
+                    else:
+                        nxt = ObjModel(None, name='entry.next')
+                        nxt.attrs['address'] = a1
+                    ctl = e.charval(a0)
+                    entry.attrs.update({'address': a0, 'next': nxt, 'ctl': ctl, 'instructions': ('instructions', a0, a1)})
+                    p.block_end = a1
+                    e.assign(node_.target, entry)
+                    try:
+                        e.exec_block(node_.body)
+                    except _Continue:
+                        pass
+                    except _Break:
+                        return
+                    raise PathEnd()
+                reset_members()
+
+            def instructions_loop(e, node_):
+                it = e.ev(node_.iter)
+                if not (isinstance(it, tuple) and it and it[0] == 'instructions'):
+                    raise poly.Refuse('instructions loop over %r' % (it,))
+                e.fresh_n += 1
+                if e.decide(SB(z3.Bool('iterate!%d' % e.fresh_n))):
+                    ia = e.fresh('instruction_address', 0, 65536)
+                    e.assume(and_(cmpop('>=', ia, it[1]), cmpop('<', ia, it[2])))
+                    from pyvc.engine import ObjModel
+                    ins = ObjModel(None, name='instruction')
+                    ins.attrs.update({'address': ia, 'referrers': ('referrers',), 'operation': UNK})
+                    e.assign(node_.target, ins)
+                    try:
+                        e.exec_block(node_.body)
+                    except _Continue:
+                        pass
+                    except _Break:
+                        return
+                    raise PathEnd()
+
+            def referrers_loop(e, node_):
+                e.fresh_n += 1
+                if e.decide(SB(z3.Bool('iterate!%d' % e.fresh_n))):
+                    ref = e.fresh('referrer', 0, 65536)
+                    e.assume(and_(cmpop('>=', ref, p.gs), cmpop('<=', ref, p.ge)))
+                    e.assign(node_.target, ref)
+                    try:
+                        e.exec_block(node_.body)
+                    except _Continue:
+                        pass
+                    except _Break:
+                        return
+                    raise PathEnd()
+
             handlers = {}
             for l in all_loops:
                 if not any(l in list(ast.walk(s)) for s in stmts):
@@ -576,7 +644,9 @@ def check_code_map_steps(rep, prop='C14'):
                     h = forever_loop if ast.unparse(l.test) in ('1', 'True') else until_loop
                 else:
                     it = ast.unparse(l.iter)
-                    h = map_loop if 'read_map(' in it else blocks_loop if '_get_blocks(' in it else text_loop if '_get_text_blocks(' in it else None
+                    h = (map_loop if 'read_map(' in it else blocks_loop if '_get_blocks(' in it else text_loop if '_get_text_blocks(' in it else
+                         entries_loop if it.replace(' ', '') == 'disassembly.entries' else instructions_loop if it.replace(' ', '') == 'entry.instructions' else
+                         referrers_loop if it.replace(' ', '') == 'instruction.referrers' else None)
                 if h is None:
                     raise poly.Refuse('unexpected loop in %s: %s' % (step, ast.unparse(l).split('\n')[0]))
                 handlers[(q, all_loops.index(l))] = h
@@ -594,6 +664,10 @@ def check_code_map_steps(rep, prop='C14'):
                     pre.append(cmpop('>', s_, p.gs))
                     e.oblige('pre._find_terminal_instruction.start_is_a_key', ctls.known(s_), n)
                 e.oblige('pre._find_terminal_instruction', and_(*pre), n)
+                if mode is not None and getattr(p, 'block_end', None) is not None:
+                    # a scan started inside a block (modes 'c' / entry.ctl) must stop at that block's end: beyond it lies
+                    # code the map already classified, where a marker planted after the first RET would split executed code
+                    e.oblige('scan_stays_inside_the_block', cmpop('<=', e_, p.block_end), n)
                 r = e.fresh('fti_result', 0, 65536)
                 e.assume(and_(cmpop('>=', r, s_), or_(cmpop('<=', r, e_), cmpop('>=', s_, e_))))
                 reset_members()
@@ -608,13 +682,16 @@ def check_code_map_steps(rep, prop='C14'):
             map_reader.attrs['read_map'] = mr
             disassembly = ObjModel(None, name='disassembly')
             disassembly.attrs['remove_entry'] = CallModel(lambda e, a, k, n: None, 'remove_entry')
+            disassembly.attrs['build'] = CallModel(lambda e, a, k, n: None, 'build')
+            disassembly.attrs['entries'] = ('entries',)
             p.locs = {'snapshot': UNK, 'start': p.gs, 'end': p.ge, 'config': UNK, 'rst_handler': None, 'code_map': 'map', 'ctls': ctls,
                       'map_reader': map_reader, 'disassembly': disassembly}
             eng.run_stmts(fn, stmts, p.locs)
 
         eng = DictEngine(inline_ok=lambda f: False, unknown_ok=True)
         FuncVC(rep, prop, fn, name, eng).run(start, None, None)
-    rep.assume('_generate_ctls_with_code_map: steps (3) and (5) take their keys from Disassembly objects (entry / instruction addresses): not under VC; '
+    rep.assume('_generate_ctls_with_code_map: step (5) takes its keys from Disassembly objects and is not under VC; step (3) is, with Disassembly modelled by its contract (entries = the blocks of ctls, '
+               'instruction addresses inside their entry, referrers inside the requested range); '
                '_get_blocks yields [ctl, key_i, key_i+1] for consecutive sorted keys (checked exhaustively on all dictionaries with keys in 0..6, not proved for arbitrary size)')
 
 
